@@ -28,6 +28,7 @@ import (
 //	strlist,intlist,f64list,boollist   L     []string / []int / []float64 / []bool
 //	map      M (ordered) map[string]any, inserted in the order given
 //	mapss,mapsi,mapsf,mapsb   M           map[string]string / int / float64 / bool
+//	mapsi64, nmapss,nmapsi,nmapsf,nmapsb, nmap   M    map[string]int64; user-defined map types over string/int/float64/bool/any
 //	ptr      L[0]        pointer to the materialised L[0]
 //	wild     S           name in the wild-value registry (C06)
 type Val struct {
@@ -183,6 +184,42 @@ func (v Val) Go() any {
 		out := make(map[string]bool, len(v.M))
 		for _, kv := range v.M {
 			out[kv.K] = kv.V.S == "true"
+		}
+		return out
+	case "mapsi64": // not one of the map types with a provider of their own: the generic path for string-keyed maps
+		out := make(map[string]int64, len(v.M))
+		for _, kv := range v.M {
+			out[kv.K] = mustInt(kv.V.S, 64)
+		}
+		return out
+	case "nmapss":
+		out := make(NamedStrMap, len(v.M))
+		for _, kv := range v.M {
+			out[kv.K] = kv.V.S
+		}
+		return out
+	case "nmapsi":
+		out := make(NamedIntMap, len(v.M))
+		for _, kv := range v.M {
+			out[kv.K] = int(mustInt(kv.V.S, 64))
+		}
+		return out
+	case "nmapsf":
+		out := make(NamedFloatMap, len(v.M))
+		for _, kv := range v.M {
+			out[kv.K] = parseFloat(kv.V.S, 64)
+		}
+		return out
+	case "nmapsb":
+		out := make(NamedBoolMap, len(v.M))
+		for _, kv := range v.M {
+			out[kv.K] = kv.V.S == "true"
+		}
+		return out
+	case "nmap":
+		out := make(NamedMap, len(v.M))
+		for _, kv := range v.M {
+			out[kv.K] = kv.V.Go()
 		}
 		return out
 	case "struct":
